@@ -2,7 +2,8 @@
 
 Deciding method: Lean theorems of `TriompheModel.Props.C17` about the model `Model/Serde.lean`
 (∀ payload = arbitrary serialize/deserialize functions, ∀ serializer state, ∀ deserializer, ∀ heap):
-`C17_serialize_transparent`, `C17_deserialize_fresh_sole_owner`, `C17_error_passthrough_no_alloc`.
+`C17_serialize_transparent`, `C17_deserialize_fresh_sole_owner`, `C17_error_passthrough_no_alloc`,
+`C17_in_place_fresh_sole_owner`, `C17_in_place_error` (the provided `deserialize_in_place`, not overridden).
 The proofs are short because the model of the four impls is a delegation, exactly as the source;
 the weight is in the two ties:
 
@@ -136,6 +137,33 @@ def monitor(mode, p):
                 bad.append("%s: the error that came out is not the error object the %s produced" % (name, "serializer" if mode == "ser" else "deserializer"))
         if x["impl"].get("nhr_same") != "true":
             bad.append("%s behaves differently from T when the %s reports is_human_readable() == false" % (name, "serializer" if mode == "ser" else "deserializer"))
+        if mode == "dip":
+            # in-place deserialisation into a handle that already exists (Arc: shared with two more owners, old count 3;
+            # UniqueArc: sole).  "produces a NEW handle that is the SOLE owner": the place ends up on a fresh block with
+            # count 1, the old allocation loses exactly one owner and keeps its value; on error everything is as before.
+            hp, im = x["heap"], x["impl"]
+            old0 = 3 if h == "Arc" else 1
+            if x["kind"] == "ok":
+                if hp.get("eq") != "true":
+                    bad.append("%s (in place): deserialised value differs from what T's deserialiser yields" % name)
+                if hp.get("count") != "1" or hp.get("fresh") != "true":
+                    bad.append("%s (in place): the handle is not a new sole owner (count=%s, block allocated by this call: %s)" % (name, hp.get("count"), hp.get("fresh")))
+                if hp.get("allocs") != "1":
+                    bad.append("%s (in place): %s Arc-block allocations instead of exactly one" % (name, hp.get("allocs")))
+                if hp.get("old_count") != str(old0 - 1) or hp.get("old_same") != "true":
+                    bad.append("%s (in place): the allocation the place referred to before: count %s (expected %d), value untouched: %s" % (
+                        name, hp.get("old_count"), old0 - 1, hp.get("old_same")))
+            else:
+                if im.get("same_msg") != "true" or im.get("passthrough") != "true":
+                    bad.append("%s (in place): error differs from T's error" % name)
+                if hp.get("allocs") != "0" or hp.get("old_count") != str(old0) or hp.get("old_same") != "true" or hp.get("place_same") != "true":
+                    bad.append("%s (in place): after the error the place / its allocation changed (allocs=%s old_count=%s old_same=%s place_same=%s)" % (
+                        name, hp.get("allocs"), hp.get("old_count"), hp.get("old_same"), hp.get("place_same")))
+            if im.get("leaked") != "0":
+                bad.append("%s (in place): %s allocations left behind" % (name, im.get("leaked")))
+            if im.get("bad_events", "0") != "0":
+                bad.append("%s (in place): allocator / payload misuse events: %s" % (name, im.get("bad_events")))
+            continue
         if mode != "de":
             continue
         if x["kind"] == "ok":
@@ -167,7 +195,7 @@ def agree(mode, pi, pm):
     for h in ("T", "Arc", "Unique"):
         if pi[h]["R"] != pm[h]["R"]:
             out.append("%s: impl %s / model %s" % (h, pi[h]["R"], pm[h]["R"]))
-        elif mode == "de" and h != "T" and pi[h]["heap"] != pm[h]["heap"]:
+        elif mode in ("de", "dip") and h != "T" and pi[h]["heap"] != pm[h]["heap"]:
             out.append("%s: impl [%s] / model [%s]" % (h, pi[h]["heap_raw"], pm[h]["heap_raw"]))
     return out
 
@@ -208,7 +236,7 @@ def evaluate(lines, impl, model):
 def explore(ctx, binpath, drv, payloads):
     """pass 1: k = 0 for every payload and mode (learn the number of callbacks n from BOTH sides);
     pass 2: every k in 1 .. n+1 (n+1 = one past the last callback: no failure happens)."""
-    first = ["%s 0 %s" % (mode, " ".join(p)) for p in payloads for mode in ("ser", "de")]
+    first = ["%s 0 %s" % (mode, " ".join(p)) for p in payloads for mode in ("ser", "de", "dip")]
     impl, model = run_lines(binpath, drv, first)
     r1 = evaluate(first, impl, model)
     second = []
@@ -265,6 +293,7 @@ def run(ctx):
     dis = [r for r in res if r["disagree"]]
     ctx.oblige("corr:serialize-log", not [r for r in dis if r["mode"] == "ser"], "%d disagreements" % len([r for r in dis if r["mode"] == "ser"]))
     ctx.oblige("corr:deserialize-log-and-heap", not [r for r in dis if r["mode"] == "de"], "%d disagreements" % len([r for r in dis if r["mode"] == "de"]))
+    ctx.oblige("corr:deserialize-in-place-log-and-heap", not [r for r in dis if r["mode"] == "dip"], "%d disagreements" % len([r for r in dis if r["mode"] == "dip"]))
     ctx.oblige("monitor:transparent-fresh-sole-owner-no-leak", not viol, "%d cases" % len(viol))
 
     # ---- coverage -------------------------------------------------------------------------------
@@ -282,7 +311,7 @@ def run(ctx):
                  "distinct = distinct query lines"),
         "payload_values": len(payloads),
         "by_family": fam,
-        "by_mode": {m: sum(1 for r in res if r["mode"] == m) for m in ("ser", "de")},
+        "by_mode": {m: sum(1 for r in res if r["mode"] == m) for m in ("ser", "de", "dip")},
         "failing_runs": sum(1 for r in res if r["pi"]["T"]["kind"] == "err"),
         "successful_runs": sum(1 for r in res if r["pi"]["T"]["kind"] == "ok"),
         "max_callbacks": max(int(re.match(r"n=(\d+)", r["pi"]["T"]["head"]).group(1)) for r in res if r["pi"]["T"]["kind"] == "ok"),
@@ -329,7 +358,7 @@ def replay(ctx, path):
     ctx.assumptions = ASSUME
     text = open(path).read()
     lines = []
-    for m in re.finditer(r"^\s*query: ((?:ser|de) \d+ .+)$", text, re.M):
+    for m in re.finditer(r"^\s*query: ((?:ser|de|dip) \d+ .+)$", text, re.M):
         q = m.group(1).strip()
         if q not in lines:
             lines.append(q)
